@@ -1929,7 +1929,7 @@ func ruleServerLoopShape(p *Prog, r *Out) {
 		}, "hasContentLength && recvBody != contentLength", "RFC 7540 s8.1.2.6: a request whose DATA does not add up to its content-length is malformed; one without a content-length is not")
 		rst := false
 		inspectCalls(mismatch.Body, func(cl *ast.CallExpr) {
-			if p.calleeOf(cl) == "(*serverConn).writeReset" && p.text(cl.Args[1]) == "ProtocolError" {
+			if id, code, _, ok := p.resetCall(cl); ok && id == "strm.ID()" && p.text(code) == "ProtocolError" {
 				rst = true
 			}
 		})
@@ -1971,7 +1971,7 @@ func ruleServerLoopShape(p *Prog, r *Out) {
 					})
 				case "FrameResetStream":
 					inspectCalls(x, func(cl *ast.CallExpr) {
-						if p.calleeOf(cl) == "(*serverConn).writeReset" && squash(p.text(cl.Args[0])) == "strm.ID()" && squash(p.text(cl.Args[1])) == "streamErr.Code()" {
+						if id, code, _, ok := p.resetCall(cl); ok && id == "strm.ID()" && squash(p.text(code)) == "streamErr.Code()" {
 							rs++
 						}
 					})
@@ -1982,7 +1982,7 @@ func ruleServerLoopShape(p *Prog, r *Out) {
 						if p.calleeOf(cl) == "(*serverConn).writeGoAway" && p.text(cl.Args[1]) == "InternalError" {
 							fallbackGA = true
 						}
-						if p.calleeOf(cl) == "(*serverConn).writeReset" && p.text(cl.Args[1]) == "InternalError" {
+						if id, code, _, ok := p.resetCall(cl); ok && id == "strm.ID()" && p.text(code) == "InternalError" {
 							fallbackRS = true
 						}
 					})
